@@ -78,6 +78,8 @@ class RunTaskExecutable(Operation):
     def start_execution(
         self, ctx: Context, slot: Optional[int]
     ) -> OperationExecutionHandle:
+        # N.B. The abort handler below inspects `process`.
+        process = None
         try:
             self._output_path.mkdir(parents=True, exist_ok=True)
 
